@@ -108,11 +108,15 @@ func closeOracle(x *Run, closable, loser bool, want map[string]int64, gaugeID st
 
 func c08Scenarios(tier string) []*Scenario {
 	var out []*Scenario
-	type variant struct{ cached, closable bool; interval int64; twoClosers bool }
-	vs := []variant{{true, true, 1e9, false}, {false, false, 1e9, false}}
+	type variant struct {
+		cached, closable bool
+		interval         int64
+		twoClosers       bool
+	}
+	vs := []variant{{true, true, 1e9, false}, {false, false, 1e9, false}, {true, true, 1e9, true}}
 	if tier == "thorough" {
 		vs = append(vs, variant{true, false, 1e9, false}, variant{false, true, 1e9, false}, variant{true, true, 0, false}, variant{false, false, 0, false},
-			variant{true, true, 1e9, true})
+			variant{false, false, 0, true}, variant{false, true, 1e9, true})
 	}
 	for _, v := range vs {
 		v := v
